@@ -50,6 +50,7 @@ image_off (const void *a)
   return -1;
 }
 
+static int hidden_libc_state (const void *a);
 static void
 access_hook (const void *a, size_t n, int is_write)
 {
@@ -81,7 +82,7 @@ access_hook (const void *a, size_t n, int is_write)
               if ((w >= 0 && w != t) || (sh_readers[b] & ~(1u << t)))
                 {
                   if (!n_races++)
-                    snprintf (race_desc, sizeof race_desc, "write by thread %d to library static at image offset %ld previously %s by thread %d", t, b,
+                    snprintf (race_desc, sizeof race_desc, "write by thread %d to %s at image offset %ld previously %s by thread %d", t, hidden_libc_state (a) ? "hidden static state of a libc function the library calls (modelled)" : "library static", b,
                               (w >= 0 && w != t) ? "written" : "read", (w >= 0 && w != t) ? w : (sh_readers[b] & ~(1u << t)) == 1 ? 0 : (sh_readers[b] & 2 && t != 1) ? 1 : 2);
                 }
               sh_writer[b] = (signed char) t;
@@ -93,7 +94,7 @@ access_hook (const void *a, size_t n, int is_write)
               if (w >= 0 && w != t)
                 {
                   if (!n_races++)
-                    snprintf (race_desc, sizeof race_desc, "read by thread %d of library static at image offset %ld written by thread %d", t, b, w);
+                    snprintf (race_desc, sizeof race_desc, "read by thread %d of %s at image offset %ld written by thread %d", t, hidden_libc_state (a) ? "hidden static state of a libc function the library calls (modelled)" : "library static", b, w);
                 }
               sh_readers[b] |= (unsigned char) (1u << t);
             }
@@ -709,6 +710,12 @@ static struct
   unsigned long rand_state;
   struct tm tm;
 } libc_hidden;
+
+static int
+hidden_libc_state (const void *a)
+{
+  return (const unsigned char *) a >= (const unsigned char *) &libc_hidden && (const unsigned char *) a < (const unsigned char *) &libc_hidden + sizeof libc_hidden;
+}
 
 char *l64a (long n);
 char *
